@@ -100,6 +100,14 @@ impl AuthorizerBuilder {
             let e2: biscuit_parser::error::LanguageError = e.into();
             e2
         })?;
+        super::scope::check_parsed_scopes(
+            source_result
+                .rules
+                .iter()
+                .map(|(_, rule)| rule)
+                .chain(source_result.checks.iter().flat_map(|(_, c)| &c.queries))
+                .chain(source_result.policies.iter().flat_map(|(_, p)| &p.queries)),
+        )?;
 
         for (_, fact) in source_result.facts.into_iter() {
             let mut fact: Fact = fact.into();
